@@ -54,6 +54,18 @@ PROPS = {
         "assumptions": ["the harness tokenizer (token classes of grammar.lalrpop) is trusted",
                         "escape_debug's Unicode tables are not modelled: the theorems quantify over an arbitrary mustEscape predicate",
                         "the LALRPOP-generated tables are tied to the model parser by the (parse ...) correspondence lines, accepts and rejects"],
+    "C06": {
+        "streams": [("c06", 6000, 500000)],
+        "definitional": False,
+        "rule": "generated Cedar text policies/templates (all operators, extension calls incl. wrong arity, has-chains, is-in, != > >=, 0-3 when/unless "
+                "clauses, annotations with escapes, both slots) and policy sets of 1-4 of them with 1-2 links per template, plus hand-built EST JSON "
+                "policies (every operator key, Value escapes, odd-but-accepted and rejected shapes); per policy: JSON via CST->EST and AST->EST, "
+                "to_json/from_json, PST, protobuf, responses on 3 worlds, printed-text re-parse; model lines: (est to)=from_json, (est of)=to_json, "
+                "(estpol to)=policy-level from_json; non-trivial = condition with >=4 subexpressions, every hand-built JSON policy, every set with links",
+        "theorems": ["est_roundtrip", "est_policy_roundtrip", "est_eval", "pst_roundtrip_partial", "proto_roundtrip_partial"],
+        "assumptions": ["serde / serde_json (text <-> JSON value) and prost's byte encoding are not modelled: only their round trips are sampled",
+                        "PST and protobuf are modelled as message trees (structure-preserving maps), their Rust conversions are tied to the code only by the sampled round trips",
+                        "JSON numbers are integers; duplicate object members cannot be expressed through serde_json::Value and are not sampled"],
     },
     "C07": {
         "streams": [("c07", 6000, 600000)],
